@@ -304,3 +304,38 @@ theorem d_bigprod_without (m : ℕ) (F : ℕ → ℝ → ℝ) (F' : ℕ → ℝ)
   intro i hi
   rw [ax_bigprod_without (fun j => F j x) i m (by have := Finset.mem_range.mp hi; omega)]
   ring
+
+/-! ### G-mode: filtered operand lists (rules that drop neutral operands) -/
+
+theorem ax_bigsum_filter (f : ℕ → ℝ) (P : ℕ → Prop) [DecidablePred P] (n : ℕ)
+    (h : ∀ i, i < n → ¬ P i → f i = 0) :
+    ∑ i ∈ (Finset.range n).filter P, f i = ∑ i ∈ Finset.range n, f i := by
+  apply Finset.sum_filter_of_ne
+  intro x hx hne
+  by_contra hp
+  exact hne (h x (Finset.mem_range.mp hx) hp)
+
+theorem ax_bigprod_filter (f : ℕ → ℝ) (P : ℕ → Prop) [DecidablePred P] (n : ℕ)
+    (h : ∀ i, i < n → ¬ P i → f i = 1) :
+    ∏ i ∈ (Finset.range n).filter P, f i = ∏ i ∈ Finset.range n, f i := by
+  apply Finset.prod_filter_of_ne
+  intro x hx hne
+  by_contra hp
+  exact hne (h x (Finset.mem_range.mp hx) hp)
+
+/-- the kept entries, in order, as a list: its sum is the filter sum -/
+theorem ax_filter_list_sum (f : ℕ → ℝ) (P : ℕ → Prop) [DecidablePred P] (n : ℕ) :
+    (((List.range n).filter (fun i => decide (P i))).map f).sum = ∑ i ∈ (Finset.range n).filter P, f i := by
+  have hnd : ((List.range n).filter (fun i => decide (P i))).Nodup := (List.nodup_range).filter _
+  rw [← List.sum_toFinset f hnd]
+  congr 1
+  ext x
+  simp
+
+theorem ax_filter_list_prod (f : ℕ → ℝ) (P : ℕ → Prop) [DecidablePred P] (n : ℕ) :
+    (((List.range n).filter (fun i => decide (P i))).map f).prod = ∏ i ∈ (Finset.range n).filter P, f i := by
+  have hnd : ((List.range n).filter (fun i => decide (P i))).Nodup := (List.nodup_range).filter _
+  rw [← List.prod_toFinset f hnd]
+  congr 1
+  ext x
+  simp
